@@ -22,7 +22,8 @@ def confirm(patch, demo):
     wt = tempfile.mkdtemp(prefix="amshan-seedwt-")
     os.rmdir(wt)
     try:
-        assert sh(f"git -C /repo worktree add -q --detach {wt} HEAD").returncode == 0
+        if sh(f"git -C /repo worktree add -q --detach {wt} HEAD").returncode != 0:
+            raise SystemExit("cannot create scratch worktree")
         clean = sh(f"/venv/bin/python {demo} {wt}", timeout=120).returncode
         ap = sh(f"git -C {wt} apply {patch}")
         if ap.returncode:
@@ -44,7 +45,8 @@ def run(patch, pids):
     os.rmdir(wt)
     res = {}
     try:
-        assert sh(f"git -C /repo worktree add -q --detach {wt} HEAD").returncode == 0
+        if sh(f"git -C /repo worktree add -q --detach {wt} HEAD").returncode != 0:
+            raise SystemExit("cannot create scratch worktree")
         ap = sh(f"git -C {wt} apply {patch}")
         if ap.returncode:
             print("patch does not apply:", ap.stderr[:300])
